@@ -93,12 +93,13 @@ func (d dissecting) Summarize(entry *api.Entry) *api.BaseEntry {
 		}
 		topics := _topics.([]interface{})
 		for i, topic := range topics {
-			summary += fmt.Sprintf("%s, ", topic.(map[string]interface{})["name"].(string))
-			summaryQuery += fmt.Sprintf(`request.payload.topics[%d].name == "%s" and`, i, summary)
+			name := topic.(map[string]interface{})["name"].(string)
+			summary += fmt.Sprintf("%s, ", name)
+			summaryQuery += fmt.Sprintf(`request.payload.topics[%d].name == "%s" and `, i, name)
 		}
 		if len(summary) > 0 {
 			summary = summary[:len(summary)-2]
-			summaryQuery = summaryQuery[:len(summaryQuery)-4]
+			summaryQuery = summaryQuery[:len(summaryQuery)-5]
 		}
 	case ApiVersions:
 		summary = entry.Request["clientID"].(string)
@@ -110,12 +111,13 @@ func (d dissecting) Summarize(entry *api.Entry) *api.BaseEntry {
 		}
 		topics := _topics.([]interface{})
 		for i, topic := range topics {
-			summary += fmt.Sprintf("%s, ", topic.(map[string]interface{})["topic"].(string))
-			summaryQuery += fmt.Sprintf(`request.payload.topicData[%d].topic == "%s" and`, i, summary)
+			name := topic.(map[string]interface{})["topic"].(string)
+			summary += fmt.Sprintf("%s, ", name)
+			summaryQuery += fmt.Sprintf(`request.payload.topicData[%d].topic == "%s" and `, i, name)
 		}
 		if len(summary) > 0 {
 			summary = summary[:len(summary)-2]
-			summaryQuery = summaryQuery[:len(summaryQuery)-4]
+			summaryQuery = summaryQuery[:len(summaryQuery)-5]
 		}
 	case Fetch:
 		_topics := entry.Request["payload"].(map[string]interface{})["topics"]
@@ -124,12 +126,13 @@ func (d dissecting) Summarize(entry *api.Entry) *api.BaseEntry {
 		}
 		topics := _topics.([]interface{})
 		for i, topic := range topics {
-			summary += fmt.Sprintf("%s, ", topic.(map[string]interface{})["topic"].(string))
-			summaryQuery += fmt.Sprintf(`request.payload.topics[%d].topic == "%s" and`, i, summary)
+			name := topic.(map[string]interface{})["topic"].(string)
+			summary += fmt.Sprintf("%s, ", name)
+			summaryQuery += fmt.Sprintf(`request.payload.topics[%d].topic == "%s" and `, i, name)
 		}
 		if len(summary) > 0 {
 			summary = summary[:len(summary)-2]
-			summaryQuery = summaryQuery[:len(summaryQuery)-4]
+			summaryQuery = summaryQuery[:len(summaryQuery)-5]
 		}
 	case ListOffsets:
 		_topics := entry.Request["payload"].(map[string]interface{})["topics"]
@@ -138,12 +141,13 @@ func (d dissecting) Summarize(entry *api.Entry) *api.BaseEntry {
 		}
 		topics := _topics.([]interface{})
 		for i, topic := range topics {
-			summary += fmt.Sprintf("%s, ", topic.(map[string]interface{})["name"].(string))
-			summaryQuery += fmt.Sprintf(`request.payload.topics[%d].name == "%s" and`, i, summary)
+			name := topic.(map[string]interface{})["name"].(string)
+			summary += fmt.Sprintf("%s, ", name)
+			summaryQuery += fmt.Sprintf(`request.payload.topics[%d].name == "%s" and `, i, name)
 		}
 		if len(summary) > 0 {
 			summary = summary[:len(summary)-2]
-			summaryQuery = summaryQuery[:len(summaryQuery)-4]
+			summaryQuery = summaryQuery[:len(summaryQuery)-5]
 		}
 	case CreateTopics:
 		_topics := entry.Request["payload"].(map[string]interface{})["topics"]
@@ -152,25 +156,31 @@ func (d dissecting) Summarize(entry *api.Entry) *api.BaseEntry {
 		}
 		topics := _topics.([]interface{})
 		for i, topic := range topics {
-			summary += fmt.Sprintf("%s, ", topic.(map[string]interface{})["name"].(string))
-			summaryQuery += fmt.Sprintf(`request.payload.topics[%d].name == "%s" and`, i, summary)
+			name := topic.(map[string]interface{})["name"].(string)
+			summary += fmt.Sprintf("%s, ", name)
+			summaryQuery += fmt.Sprintf(`request.payload.topics[%d].name == "%s" and `, i, name)
 		}
 		if len(summary) > 0 {
 			summary = summary[:len(summary)-2]
-			summaryQuery = summaryQuery[:len(summaryQuery)-4]
+			summaryQuery = summaryQuery[:len(summaryQuery)-5]
 		}
 	case DeleteTopics:
-		if entry.Request["topicNames"] == nil {
-			break
-		}
-		topicNames := entry.Request["topicNames"].([]string)
-		for i, name := range topicNames {
-			summary += fmt.Sprintf("%s, ", name)
-			summaryQuery += fmt.Sprintf(`request.topicNames[%d] == "%s" and`, i, summary)
+		payload := entry.Request["payload"].(map[string]interface{})
+		if _topicNames := payload["topicNames"]; _topicNames != nil {
+			for i, name := range _topicNames.([]interface{}) {
+				summary += fmt.Sprintf("%s, ", name.(string))
+				summaryQuery += fmt.Sprintf(`request.payload.topicNames[%d] == "%s" and `, i, name.(string))
+			}
+		} else if _topics := payload["topics"]; _topics != nil {
+			for i, topic := range _topics.([]interface{}) {
+				name := topic.(map[string]interface{})["name"].(string)
+				summary += fmt.Sprintf("%s, ", name)
+				summaryQuery += fmt.Sprintf(`request.payload.topics[%d].name == "%s" and `, i, name)
+			}
 		}
 		if len(summary) > 0 {
 			summary = summary[:len(summary)-2]
-			summaryQuery = summaryQuery[:len(summaryQuery)-4]
+			summaryQuery = summaryQuery[:len(summaryQuery)-5]
 		}
 	}
 
